@@ -21,32 +21,9 @@ crate::verif_harness! {
     }
 }
 
-crate::verif_harness! {
-    /// Indexed::as_rgba over all (pixel index, entry index, entry RGBA, transparent index, background flag):
-    /// None iff the index is not in the palette; palette colour with alpha 0 iff the index is the
-    /// transparent index and the layer is not a background layer, else the palette alpha.
-    #[kani::unwind(12)]
-    fn k_indexed_as_rgba(s) {
-        let mut pal = ColorPalette { entries: Default::default() }; // whatever map type `entries` is
-        let eid = s.u32();
-        let rgba: [u8; 4] = s.bytes();
-        pal.entries.insert(eid, crate::verif_spec::mk_entry(eid, rgba));
-        let px = s.u8();
-        let ti = s.u8();
-        let bg = s.bool();
-        match Indexed(px).as_rgba(&pal, ti, bg) {
-            None => assert!(px as u32 != eid, "None iff the index is absent from the palette"),
-            Some(c) => {
-                assert!(px as u32 == eid, "present index");
-                let a = if px == ti && !bg { 0 } else { rgba[3] };
-                assert!(c == Rgba([rgba[0], rgba[1], rgba[2], a]), "palette colour; transparent index is fully transparent except on a background layer");
-            }
-        }
-        crate::vcover!(px as u32 == eid && px == ti && bg, "transparent index on background");
-        crate::vcover!(px as u32 == eid && px == ti && !bg, "transparent index");
-        core::mem::forget(pal);
-    }
-}
+// (the Kani shape for Indexed::as_rgba was dropped: CBMC does not finish on hashbrown; the same contract is the Verus
+// obligation v_indexed_as_rgba, unbounded. Harnesses do not build ColorPalette values by struct literal any more, so
+// that a change of its fields cannot stop the overlay from compiling.)
 
 macro_rules! from_bytes_shape {
     ($hname:ident, $n:expr) => {
